@@ -74,8 +74,8 @@ theorem silent_after_pubcomp (s : Script) (hd : s.DistinctMsgs) (m i : Nat)
     connection (its counter starts at 10 again), its PUBLISH is taken for a duplicate, and
     PUBCOMP arrives without any delivery -/
 def qos3 : Script :=
-  { evs := [.start, .dialOk 10, .connackOk false [], .app (.pub 1 3), .peerClose, .dialOk 10,
-            .connackOk true [], .app (.pub 2 2)] }
+  { evs := [.start, .dialOk 10, .connackOk false [], .app (.pub 1 3), .peerClose, .waitElapsed,
+            .dialOk 10, .connackOk true [], .app (.pub 2 2)] }
 
 example : qos3.DistinctMsgs ∧ SessionsKept qos3 ∧ Req.pub 2 2 ∈ (exec qos3).broker.acked ∧
     deliveries (exec qos3) 2 = 0 := by
@@ -86,15 +86,16 @@ example : qos3.DistinctMsgs ∧ SessionsKept qos3 ∧ Req.pub 2 2 ∈ (exec qos3
 /-! Non-vacuity: the QoS 2 exchange of message 1 is cut three times (PUBLISH processed but PUBREC
     lost, PUBREL lost, PUBREL processed but PUBCOMP lost) and spans four connections; the adversarial
     start value makes message 2 draw the same identifier 11. Both receiver methods deliver each
-    message exactly once. -/
+    message exactly once. Every redial happens after the back-off timer fired (`.waitElapsed`). -/
 
 def demo (meth : Method) : Script :=
   { method := meth,
     faults := [.lostAck, .ok, .lostReq, .lostAck, .ok, .ok, .silent],
     cfg := { respTimeout := true },
     evs := [.start, .dialOk 10, .connackOk false [], .app (.pub 1 2), .app (.pub 2 2),
-            .dialOk 500, .connackOk true [], .dialOk 600, .connackOk true [],
-            .dialOk 10, .connackOk true [], .dialOk 10, .connackOk true []] }
+            .waitElapsed, .dialOk 500, .connackOk true [], .waitElapsed, .dialOk 600,
+            .connackOk true [], .waitElapsed, .dialOk 10, .connackOk true [],
+            .waitElapsed, .dialOk 10, .connackOk true []] }
 
 example : (demo .onPublish).DistinctMsgs ∧ SessionsKept (demo .onPublish) ∧
     ValidQos (demo .onPublish) := by
@@ -113,6 +114,87 @@ example : msgPkts (exec (demo .onPubrel)) 1 =
 
 example : (exec (demo .onPubrel)).conns.length = 5 ∧
     lookupPid (exec (demo .onPubrel)) 2 = some 11 ∧
-    (exec (demo .onPubrel)).broker.acked = [.pub 1 2, .pub 2 2] := by decide +kernel
+    (exec (demo .onPubrel)).broker.acked = [.pub 1 2, .pub 2 2] ∧
+    (exec (demo .onPubrel)).dials = 5 ∧ (exec (demo .onPubrel)).waits = [0, 0, 0, 0] := by
+  decide +kernel
+
+/-! The theorems above quantify over all event lists, so `.waitElapsed`, `.cancelCtx` and Disconnect
+    in any phase of the reconnect loop are covered without a hypothesis. The scripts below exercise
+    them (both receiver methods). -/
+
+/-- Disconnect while the loop backs off after PUBREC was lost: the loop exits, nothing is redialled;
+    the broker has the message (delivered under `onPublish`, stashed under `onPubrel`) and the
+    exchange is never completed: at most once, no PUBCOMP -/
+def discBackoff (meth : Method) : Script :=
+  { method := meth, faults := [.lostAck],
+    evs := [.start, .dialOk 10, .connackOk false [], .app (.pub 1 2), .disconnect,
+            .waitElapsed, .dialOk 20, .connackOk true []] }
+
+example : (exec { discBackoff .onPublish with evs := (discBackoff .onPublish).evs.take 4 }).phase
+      = .backoff ∧
+    (exec (discBackoff .onPublish)).phase = .exited ∧
+    deliveries (exec (discBackoff .onPublish)) 1 = 1 ∧
+    deliveries (exec (discBackoff .onPubrel)) 1 = 0 ∧
+    (exec (discBackoff .onPubrel)).broker.stash = [(11, 1)] ∧
+    (exec (discBackoff .onPubrel)).broker.acked = [] ∧
+    (exec (discBackoff .onPubrel)).conns.length = 1 := by decide +kernel
+
+example : ∀ meth, (discBackoff meth).DistinctMsgs ∧ SessionsKept (discBackoff meth) := by
+  intro meth
+  cases meth <;> exact ⟨by unfold Script.DistinctMsgs; decide, by unfold SessionsKept; decide⟩
+
+/-- Disconnect while DialContext is in flight, PUBCOMP of the first PUBREL lost before: the dial
+    completes, CONNECT and CONNACK are exchanged on the second connection, but `Retry` is not run
+    any more: PUBREL is not repeated, the message was delivered once, PUBCOMP never arrives -/
+def discDial (meth : Method) : Script :=
+  { method := meth, faults := [.ok, .lostAck],
+    evs := [.start, .dialOk 10, .connackOk false [], .app (.pub 1 2), .waitElapsed, .disconnect,
+            .dialOk 20, .connackOk true []] }
+
+example : (exec { discDial .onPubrel with evs := (discDial .onPubrel).evs.take 6 }).phase
+      = .dialGate ∧
+    (exec { discDial .onPubrel with evs := (discDial .onPubrel).evs.take 7 }).phase
+      = .connackGate 1 ∧
+    (exec (discDial .onPubrel)).phase = .exited ∧ (exec (discDial .onPubrel)).conns.length = 2 ∧
+    deliveries (exec (discDial .onPublish)) 1 = 1 ∧ deliveries (exec (discDial .onPubrel)) 1 = 1 ∧
+    (exec (discDial .onPubrel)).broker.acked = [] ∧
+    (exec (discDial .onPubrel)).retryQ = [.rePubRel 1] ∧
+    msgPkts (exec (discDial .onPubrel)) 1 =
+      [(.publish 1 2 11 false, .sent .ok), (.pubrel 11 1, .sent .lostAck)] := by decide +kernel
+
+example : ∀ meth, (discDial meth).DistinctMsgs ∧ SessionsKept (discDial meth) := by
+  intro meth
+  cases meth <;> exact ⟨by unfold Script.DistinctMsgs; decide, by unfold SessionsKept; decide⟩
+
+/-- the context given to Connect is cancelled while CONNACK is awaited (`cancelGate`) or while the
+    loop backs off after a refused CONNECT (`cancelBackoff`): the loop exits, the request accepted
+    before is attempted on the closed transport only; the broker sees nothing -/
+def cancelGate (meth : Method) : Script :=
+  { method := meth,
+    evs := [.start, .app (.pub 1 2), .dialOk 10, .cancelCtx, .waitElapsed, .dialOk 20,
+            .connackOk true []] }
+
+def cancelBackoff (meth : Method) : Script :=
+  { method := meth,
+    evs := [.start, .app (.pub 1 2), .dialOk 10, .connackRefused, .cancelCtx, .waitElapsed,
+            .dialOk 20, .connackOk true []] }
+
+example : (exec (cancelGate .onPubrel)).phase = .exited ∧
+    (exec (cancelGate .onPubrel)).connectErr = true ∧
+    msgPkts (exec (cancelGate .onPubrel)) 1 = [(.publish 1 2 11 false, .dead)] ∧
+    deliveries (exec (cancelGate .onPublish)) 1 = 0 ∧
+    (exec (cancelGate .onPubrel)).broker.stash = [] ∧
+    (exec { cancelBackoff .onPubrel with evs := (cancelBackoff .onPubrel).evs.take 4 }).phase
+      = .backoff ∧
+    (exec (cancelBackoff .onPubrel)).phase = .exited ∧
+    (exec (cancelBackoff .onPubrel)).connectErr = true ∧
+    (exec (cancelBackoff .onPubrel)).conns.length = 1 ∧
+    deliveries (exec (cancelBackoff .onPublish)) 1 = 0 := by decide +kernel
+
+example : ∀ meth, (cancelGate meth).DistinctMsgs ∧ SessionsKept (cancelGate meth) ∧
+    (cancelBackoff meth).DistinctMsgs ∧ SessionsKept (cancelBackoff meth) := by
+  intro meth
+  cases meth <;> exact ⟨by unfold Script.DistinctMsgs; decide, by unfold SessionsKept; decide,
+    by unfold Script.DistinctMsgs; decide, by unfold SessionsKept; decide⟩
 
 end Mqtt.C02
